@@ -4,7 +4,9 @@ the parent (15 degrees), and no coincidence with another atom of the residue (0.
 Inputs: every standard residue type in every chain position (3-residue fragments of tests/data/1AFS.pdb), a chain with
 an internal gap, default options and --nodebump --noopt, PARSE and AMBER; and inputs that already carry SOME of the
 hydrogens of every XH3 group (each non-empty proper subset of the three template slots), so that the code paths
-that complete a partly protonated group are measured too.
+that complete a partly protonated group are measured too; and full-structure runs (default options: both
+debumping passes and the optimiser) in which every n-th long side chain was cut back to CB, so that atoms are rebuilt,
+debumped BEFORE hydrogens exist and rotated again afterwards.
 usage: python -m bounded.c05_geometry run <prop> <tier> <seed>"""
 import json
 import math
@@ -111,13 +113,42 @@ def _partial(pl, text, keep, argv):
     return "".join(lines)
 
 
+LONG = {"TYR", "MET", "LYS", "ARG", "PHE", "GLN", "GLU", "LEU", "HIS", "TRP", "ILE", "ASN"}
+KEEP = {"N", "CA", "C", "O", "CB"}
+
+
+def _truncated(pl, res, offset, step):
+    """Chain A of 1AFS with the side chain of every step-th long residue (starting at offset) cut back to CB."""
+    lines, serial, k = [], 1, 0
+    for r in res:
+        if r is None or r[0][1] != "A":
+            continue
+        cut = False
+        if r[0][0] in LONG:
+            cut = (k % step == offset)
+            k += 1
+        for line in r[1]:
+            name = line[12:16].strip()
+            if name.startswith("H") or line[76:78].strip() == "H" or line[16] not in (" ", "A"):
+                continue
+            if cut and name not in KEEP:
+                continue
+            lines.append(f"ATOM  {serial:5d} {line[12:16]} {line[17:]}")
+            serial += 1
+    lines.append("TER\nEND\n")
+    return "".join(lines)
+
+
 def _case(task):
     kind, resname, pos, argv = task
     from tables import pipeline as pl
 
     pdb = os.path.join(pl.repo_root(), "tests", "data", "1AFS.pdb")
     res = pl.residues_of(pdb)
-    if kind.startswith("partial"):
+    if kind.startswith("truncated"):
+        offset, step = (int(x) for x in kind.split(":")[1].split("/"))
+        text = _truncated(pl, res, offset, step)
+    elif kind.startswith("partial"):
         w = pl.find_window(res, resname, POS[pos])
         if w is None:
             return task, 0, []
@@ -166,8 +197,11 @@ def run(prop, tier, seed):
         for keep in ("1", "2", "3", "12", "13", "23"):
             for p in (("nterm", "mid") if tier == "thorough" or rn in ("ALA", "LYS") else ("mid",)):
                 tasks.append((f"partial:{keep}", rn, p, ["--ff=PARSE", "--nodebump", "--noopt"]))
+    for off in ((0, 1, 2, 3, 4, 5) if tier == "thorough" else (0, 3)):
+        tasks.append((f"truncated:{off}/6", "-", "-", ["--ff=AMBER"]))
+    tasks.sort(key=lambda t: not t[0].startswith("truncated"))      # the long ones first
     with mp.get_context("fork").Pool(min(16, os.cpu_count() or 4)) as pool:
-        res = pool.map(_case, tasks, chunksize=2)
+        res = pool.map(_case, tasks, chunksize=1)
     natoms = sum(n for _, n, _ in res)
     bad = [(t, p) for t, _, p in res if p]
     out = {"name": "c05_geometry", "evaluations": natoms, "distinct_nontrivial": len([1 for _, n, _ in res if n]),
